@@ -101,21 +101,22 @@ fn main() {
             }
         });
     }
-    // hang watchdog (see mon.rs): a single library call running for HANG_SECS ends the run with a violation
+    // hang watchdog (see mon.rs): a single library call running for hang_secs() ends the run with a violation
     {
+        let hang_secs = mon::hang_secs();
         let (out2, cmd2, tier2) = (out.clone(), cmd.clone(), tier.clone());
         std::thread::spawn(move || loop {
             std::thread::sleep(std::time::Duration::from_secs(1));
             let now = mon::TICK.fetch_add(1, std::sync::atomic::Ordering::Relaxed) + 1;
             for (slot, s) in mon::SLOTS.iter().enumerate() {
                 let entered = s.load(std::sync::atomic::Ordering::Relaxed);
-                if entered != 0 && now.saturating_sub(entered) > mon::HANG_SECS {
+                if entered != 0 && now.saturating_sub(entered) > hang_secs {
                     let last = mon::LAST_EVENT.lock().ok().and_then(|g| g.get(slot).cloned()).unwrap_or_default();
                     let sig = format!("{cmd2}:library-call-does-not-return");
                     let v = json!({
                         "evaluations": 1, "distinct_nontrivial": 1, "violation_count": 1,
                         "violation_signatures": {sig.clone(): 1},
-                        "violations": [{"sig": sig, "what": format!("a library call has not returned for more than {} s (worker slot {slot}); last event recorded by that worker: {last}", mon::HANG_SECS), "detail": {"last_event": last}, "events": []}],
+                        "violations": [{"sig": sig, "what": format!("a library call has not returned for more than {} s (worker slot {slot}); last event recorded by that worker: {last}", hang_secs), "detail": {"last_event": last}, "events": []}],
                         "forms": {}, "edge_classes": {}, "counters": {}, "samples": [], "inconclusive": [],
                         "property": cmd2, "build": ad::BUILD, "tier": tier2, "seed": seed, "wall_s": 0.0,
                     });
